@@ -59,8 +59,8 @@ func (netErr) Temporary() bool { return false }
 
 var _ net.Error = netErr{}
 
-var unavailable = map[string]bool{"timeout_text": true, "syncing": true, "api502": true, "api503": true, "api504": true, "neterr": true, "econnrefused": true}
-var errClasses = []string{"timeout_text", "syncing", "api502", "api503", "api504", "neterr", "econnrefused", "api400", "api404", "api500", "generic"}
+var unavailable = map[string]bool{"timeout_text": true, "syncing": true, "head_not_verified": true, "api502": true, "api503": true, "api504": true, "neterr": true, "econnrefused": true}
+var errClasses = []string{"timeout_text", "syncing", "head_not_verified", "api502", "api503", "api504", "neterr", "econnrefused", "api400", "api404", "api500", "generic"}
 
 func makeErr(class string) error {
 	switch class {
@@ -68,6 +68,9 @@ func makeErr(class string) error {
 		return errors.New("http request timeout")
 	case "syncing":
 		return errors.New("beacon node is syncing")
+	case "head_not_verified":
+		// what an optimistically synced node answers (no "syncing" in the text, status 500)
+		return &eth2api.Error{StatusCode: 500, Endpoint: "x", Method: "GET", Data: []byte(`{"code":500,"message":"UNHANDLED_ERROR: BlockProductionError(FailedToLoadState(HeadBlockNotFullyVerified))"}`)}
 	case "api502":
 		return &eth2api.Error{StatusCode: 502, Endpoint: "x", Method: "GET"}
 	case "api503":
